@@ -1093,6 +1093,667 @@ def judge_pairs(ctx, pending, answers):
 
 
 # ==========================================================================================
+# HISTORIES
+QUERY_OPS = {"make_operator", "ghost_setter", "interpolate", "field_op", "rate", "rhs", "solve", "diffusion", "nobc"}
+
+
+def _field(env, name):
+    return env["fields"][name] if name in env["fields"] else env["colls"][name]
+
+
+def exec_op(env, op):
+    """perform one operation; query operations return a JSON-able result"""
+    import pde
+    from pde import get_backend
+    k = op["op"]
+    if k == "field":
+        grid = env["grids"][op["grid"]]
+        cls = [pde.ScalarField, pde.VectorField][op["rank"]]
+        data = rnd_data(op["seed"], (grid.dim,) * op["rank"] + grid.shape, cplx=op.get("complex", False))
+        env["fields"][op["name"]] = cls(grid, data, dtype=complex if op.get("complex") else None)
+        return None
+    if k == "write":
+        f = env["fields"][op["field"]]
+        f.data[...] = rnd_data(op["seed"], f.data.shape)
+        return None
+    if k == "collection":
+        env["colls"][op["name"]] = pde.FieldCollection([env["fields"][n] for n in op["fields"]], copy_fields=op.get("copy", False))
+        return None
+    if k == "assign_full":
+        f = env["fields"][op["field"]]
+        f._data_full = rnd_data(op["seed"], f._data_full.shape)
+        return None
+    if k == "pde":
+        consts = {}
+        for name, v in op.get("consts", {}).items():
+            consts[name] = env["fields"][v[1]] if v[0] == "field" else dec(v)
+        env["pdes"][op["name"]] = pde.PDE(op["rhs"], bc=dec_bc(op["bc"]) if isinstance(op["bc"], dict) else op["bc"], consts=consts)
+        return None
+    # ---- queries ----
+    if k == "make_operator":
+        grid = env["grids"][op["grid"]]
+        info = get_backend("numba").get_operator_info(grid, op["operator"])
+        fn = grid.make_operator(op["operator"], dec_bc(op["bc"]), backend=op["backend"], dtype=dec(op.get("dtype", ["none"])),
+                                **{kk: dec(v) for kk, v in op.get("kwargs", [])})
+        return [lst(x) for x in apply_op(fn, grid, info, op["seed"])]
+    if k == "nobc":
+        grid = env["grids"][op["grid"]]
+        info = get_backend("numba").get_operator_info(grid, op["operator"])
+        fn = grid.make_operator_no_bc(op["operator"], backend=op["backend"], **{kk: dec(v) for kk, v in op.get("kwargs", [])})
+        full = rnd_data(op["seed"], (grid.dim,) * info.rank_in + grid._shape_full)
+        if type(grid).__name__ == "SphericalSymGrid" and info.rank_in == 1:
+            full[1:] = 0
+        o = np.zeros((grid.dim,) * info.rank_out + grid.shape)
+        fn(full, o)
+        return lst(o)
+    if k == "ghost_setter":
+        grid = env["grids"][op["grid"]]
+        bcs = grid.get_boundary_conditions(dec_bc(op["bc"]), rank=op["rank"])
+        setter = get_backend(op["backend"]).make_ghost_cell_setter(bcs)
+        full = rnd_data(op["seed"], (grid.dim,) * op["rank"] + grid._shape_full)
+        setter(full)
+        # corner cells are not defined by the conditions: report faces only
+        mask = np.zeros(grid._shape_full, dtype=bool)
+        for ax in range(grid.num_axes):
+            idx = [slice(1, -1)] * grid.num_axes
+            for side in (0, -1):
+                idx[ax] = side
+                mask[tuple(idx)] = True
+        return lst(np.where(mask, full, 0.0))
+    if k == "interpolate":
+        f = env["fields"][op["field"]]
+        grid = f.grid
+        lo = np.array([b[0] for b in grid.axes_bounds], dtype=float)
+        hi = np.array([b[1] for b in grid.axes_bounds], dtype=float)
+        r = np.random.default_rng(op["seed"])
+        pts = [lo + (hi - lo) * r.random(len(lo)) for _ in range(2)]
+        if op.get("outside"):
+            pts += [hi + (hi - lo) * 0.75, lo - (hi - lo) * 2.5]
+        kw = {"fill": dec(op.get("fill", ["none"]))}
+        if op.get("bc") is not None:
+            kw["bc"] = dec_bc(op["bc"])
+        out = []
+        for q in pts:
+            try:
+                out.append(lst(f.interpolate(np.array(q), **kw)))
+            except Exception as e:
+                out.append("EXC:" + exc_class(e))
+        return out
+    if k == "field_op":
+        f = env["fields"][op["field"]]
+        return lst(f.apply_operator(op["operator"], bc=dec_bc(op["bc"]), backend=op["backend"]).data)
+    if k == "rate":
+        eq = env["pdes"][op["pde"]]
+        return lst(eq.evolution_rate(_field(env, op["state"]), op.get("t", 0.0)).data)
+    if k == "rhs":
+        eq = env["pdes"][op["pde"]]
+        st = _field(env, op["state"])
+        rhs = eq.make_pde_rhs(st, backend=op["backend"])
+        return lst(rhs(st.data.copy(), op.get("t", 0.0)))
+    if k == "solve":
+        eq = env["pdes"][op["pde"]]
+        st = _field(env, op["state"])
+        res = eq.solve(st, t_range=op["t_range"], dt=op["dt"], tracker=None, backend=op["backend"], solver=op.get("solver", "euler"))
+        return lst(res.data)
+    if k == "diffusion":
+        st = _field(env, op["state"])
+        eq = pde.DiffusionPDE(diffusivity=op["diffusivity"], bc=dec_bc(op["bc"]))
+        if op.get("backend"):
+            return lst(eq.make_pde_rhs(st, backend=op["backend"])(st.data.copy(), 0.0))
+        return lst(eq.evolution_rate(st).data)
+    raise ValueError(k)
+
+
+def hist_exec(history, fresh):
+    """run a history (fresh: skip every query except the last one); returns the last result"""
+    quiet()
+    env = {"grids": [make_grid(g) for g in history["grids"]], "fields": {}, "colls": {}, "pdes": {}}
+    ops = history["ops"]
+    last = len(ops) - 1
+    result = None
+    for i, op in enumerate(ops):
+        is_q = op["op"] in QUERY_OPS
+        if is_q and fresh and i != last:
+            continue
+        if is_q:
+            try:
+                r = exec_op(env, op)
+            except Exception as e:
+                r = "EXC:" + exc_class(e)
+        else:
+            try:
+                r = exec_op(env, op)
+            except Exception as e:
+                return "SETUP-EXC:" + exc_class(e) + ":" + str(e)[:80]
+        if i == last:
+            result = r
+    return result
+
+
+def forked(history, fresh):
+    """run in a child forked from this process (which must not have used py-pde yet)"""
+    r, w = os.pipe()
+    pid = os.fork()
+    if pid == 0:
+        code = 0
+        try:
+            os.close(r)
+            try:
+                res = hist_exec(history, fresh)
+            except BaseException:
+                res = "CRASH:" + traceback.format_exc()[-600:]
+            with os.fdopen(w, "wb") as fh:
+                pickle.dump(res, fh)
+        except BaseException:
+            code = 1
+        finally:
+            os._exit(code)
+    os.close(w)
+    with os.fdopen(r, "rb") as fh:
+        data = fh.read()
+    os.waitpid(pid, 0)
+    if not data:
+        return "CRASH:no-output"
+    return pickle.loads(data)
+
+
+def same_result(a, b, tol=1e-9):
+    if isinstance(a, str) or isinstance(b, str):
+        return a == b
+    if isinstance(a, dict) and isinstance(b, dict) and set(a) == set(b) == {"re", "im"}:
+        return same_result(a["re"], b["re"], tol) and same_result(a["im"], b["im"], tol)
+    if isinstance(a, dict) or isinstance(b, dict):
+        return False
+    if isinstance(a, list) and isinstance(b, list) and any(isinstance(x, (str, dict)) for x in a + b):
+        return len(a) == len(b) and all(same_result(x, y, tol) for x, y in zip(a, b))
+    try:
+        return arr_close(np.array(a, dtype=float), np.array(b, dtype=float), tol)
+    except (ValueError, TypeError):
+        if isinstance(a, list) and isinstance(b, list) and len(a) == len(b):
+            return all(same_result(x, y, tol) for x, y in zip(a, b))
+        return False
+
+
+def hist_worker(history):
+    """history in one interpreter vs last call in a fresh one (both forked from this clean process);
+    on a difference the history is shrunk"""
+    import pde  # noqa: F401  (only imported - nothing of py-pde has been called in this process)
+    full = forked(history, False)
+    fresh = forked(history, True)
+    out = {"full": full, "fresh": fresh, "same": same_result(full, fresh)}
+    if isinstance(fresh, str) and fresh.startswith(("SETUP-EXC", "CRASH")) or isinstance(full, str) and full.startswith("CRASH"):
+        out["malformed"] = str(fresh if isinstance(fresh, str) else full)[:120]
+        out["same"] = True if not (isinstance(full, str) and full.startswith("CRASH")) or full == fresh else out["same"]
+        return out
+    if not out["same"]:
+        # greedy shrinking: drop operations (never the last) while the difference persists
+        h = copy.deepcopy(history)
+        budget = 40
+        changed = True
+        while changed and budget > 0:
+            changed = False
+            for i in range(len(h["ops"]) - 2, -1, -1):
+                if budget <= 0:
+                    break
+                cand = copy.deepcopy(h)
+                del cand["ops"][i]
+                budget -= 1
+                f1, f2 = forked(cand, False), forked(cand, True)
+                if not isinstance(f2, str) or not f2.startswith(("SETUP-EXC", "CRASH")):
+                    if not same_result(f1, f2):
+                        h, changed = cand, True
+                        out["full"], out["fresh"] = f1, f2
+        out["shrunk"] = h
+    return out
+
+
+def hist_exec_full(history):
+    return hist_exec(history, False)
+
+
+def hist_exec_fresh(history):
+    return hist_exec(history, True)
+
+
+# ---- history generator ------------------------------------------------------------------------
+def related_grid(rng, gd):
+    """a second grid that coincides with the first in some attributes"""
+    g = copy.deepcopy(gd)
+    r = rng.random()
+    if r < 0.25:
+        return g
+    if r < 0.45 and g["cls"] in ("UnitGrid", "CartesianGrid"):
+        if g["cls"] == "UnitGrid":
+            g["cls"] = "CartesianGrid"
+        else:
+            ax = rng.randrange(len(g["shape"]))
+            lo, hi = g["bounds"][ax]
+            g["bounds"][ax] = rng.choice([[lo, lo + 2 * (hi - lo)], [-1.0, 1.0], [-2.0, 1.0], [lo - 1.0, hi - 1.0]])
+        return g
+    if r < 0.6:
+        ax = rng.randrange(len(g["shape"]))
+        g["shape"][ax] += 1
+        if g["cls"] == "UnitGrid":
+            g["bounds"][ax][1] += 1.0
+        return g
+    if r < 0.75 and g["cls"] in ("PolarSymGrid", "SphericalSymGrid"):
+        g["cls"] = "SphericalSymGrid" if g["cls"] == "PolarSymGrid" else "PolarSymGrid"
+        return g
+    if r < 0.9 and g["cls"] in ("UnitGrid", "CartesianGrid"):
+        ax = rng.randrange(len(g["shape"]))
+        g["periodic"][ax] = not g["periodic"][ax]
+        return g
+    return gen_grid_small(rng)
+
+
+def bc_for(rng, gd, rank, like=None):
+    """boundary data for a grid; `like`: reuse the per-side conditions of another specification where possible"""
+    spec = gen_bc(rng, gd, rank)
+    if like:
+        for k, v in like.items():
+            if k in spec and isinstance(v, str) == isinstance(spec[k], str):
+                if not isinstance(v, str) and any(v.get(f, ["f"])[0] == "arr" for f in ("value", "const")):
+                    continue
+                spec[k] = copy.deepcopy(v)
+    return spec
+
+
+def vary_bc(rng, gd, rank, bc):
+    """a specification that coincides with `bc` in some attributes"""
+    req = {"grid": gd, "op": "laplace", "rank": rank, "bc": copy.deepcopy(bc), "dtype": ["none"], "kwargs": [], "korder": 0}
+    for _ in range(10):
+        v = rng.choice(["same", "class", "swap_sides", "value_num", "neg12", "int_float", "same_bytes", "const", "flip", "normal", "homog"])
+        b = apply_variant(rng, copy.deepcopy(req), v)
+        if b is not None:
+            return b["bc"], v
+    return copy.deepcopy(bc), "same"
+
+
+PDE_RHS = [{"c": "laplace(c)"}, {"c": "laplace(c) - c"}, {"c": "gradient_squared(c) + laplace(c)"}, {"c": "k * laplace(c)"},
+           {"c": "laplace(c + k)"}, {"c": "k * c"}, {"c": "divergence(gradient(c))"}]
+
+
+def gen_history(rng, hist, jit=False):
+    gd0 = gen_grid_small(rng)
+    if jit:
+        while len(gd0["shape"]) > 1:
+            gd0 = gen_grid_small(rng)
+    grids = [gd0, related_grid(rng, gd0)]
+    ops = []
+    seed = lambda: rng.randrange(1 << 30)
+    nf = rng.choice([1, 2, 2, 3])
+    fields = []
+    for i in range(nf):
+        gi = 0 if i == 0 else rng.choice([0, 0, 1])
+        ops.append({"op": "field", "name": f"f{i}", "grid": gi, "rank": 0, "seed": seed()})
+        fields.append((f"f{i}", gi))
+    theme = rng.choice(["operator", "operator", "ghost", "interp", "interp", "pde", "pde", "pde_const", "solve", "field_op", "nobc", "diffusion"])
+    hist("history-theme", theme + ("/jit" if jit else ""))
+    backends = ["numba", "numba", "scipy"] if not jit else ["numba"]
+
+    def filler():
+        """an unrelated or loosely related cache-touching operation"""
+        gi = rng.choice([0, 1])
+        gd = grids[gi]
+        r = rng.random()
+        if r < 0.35:
+            opn, rank = rng.choice(ops_of(gd))
+            return {"op": "make_operator", "grid": gi, "operator": opn, "bc": gen_bc(rng, gd, rank), "backend": rng.choice(backends), "seed": seed()}
+        if r < 0.5:
+            rank = rng.choice([0, 1])
+            return {"op": "ghost_setter", "grid": gi, "bc": gen_bc(rng, gd, rank), "rank": rank, "backend": rng.choice(["numba", "numpy"]), "seed": seed()}
+        if r < 0.7:
+            f = rng.choice(fields)[0]
+            return {"op": "interpolate", "field": f, "seed": seed(), "fill": rng.choice(FILLS), "outside": rng.random() < 0.5}
+        if r < 0.8:
+            fs = rng.sample([f for f, g in fields if g == fields[0][1]], k=1)
+            return {"op": "collection", "name": f"c{seed() % 1000}", "fields": fs, "copy": rng.random() < 0.3}
+        if r < 0.9:
+            return {"op": "write", "field": rng.choice(fields)[0], "seed": seed()}
+        f, gi = rng.choice(fields)
+        return {"op": "field_op", "field": f, "operator": "laplace", "bc": gen_bc(rng, grids[gi], 0), "backend": rng.choice(backends)}
+
+    n_fill = rng.randint(0, 3) if not jit else rng.randint(0, 1)
+    if theme in ("operator", "ghost", "nobc"):
+        pair = gen_req_pair(rng, lambda *a: None)
+        a, b = pair["a"], pair["b"]
+        grids[0], grids[1] = a["grid"], b["grid"]
+        ops = [o for o in ops if o["op"] != "field"]
+        ops.append({"op": "field", "name": "f0", "grid": 0, "rank": 0, "seed": seed()})
+        fields = [("f0", 0)]
+        be = rng.choice(backends)
+
+        def mk(r, gi):
+            if theme == "operator":
+                return {"op": "make_operator", "grid": gi, "operator": r["op"], "bc": r["bc"], "backend": be, "dtype": r["dtype"], "kwargs": r["kwargs"], "seed": pair["seed"]}
+            if theme == "nobc":
+                return {"op": "nobc", "grid": gi, "operator": r["op"], "backend": be, "kwargs": r["kwargs"], "seed": pair["seed"]}
+            return {"op": "ghost_setter", "grid": gi, "bc": r["bc"], "rank": r["rank"], "backend": rng.choice(["numba", "numpy"]) if not jit else "numba", "seed": pair["seed"]}
+        ops.append(mk(a, 0))
+        ops += [filler() for _ in range(n_fill)]
+        ops.append(mk(b, 1))
+        hist("history-variant", "+".join(pair["variants"]))
+    elif theme == "interp":
+        f = fields[0][0]
+        fa = rng.choice(FILLS)
+        fb = rng.choice(FILLS + [fa, fa])
+        ops.append({"op": "interpolate", "field": f, "seed": seed(), "fill": fa, "outside": True})
+        for _ in range(rng.randint(0, 3)):
+            r = rng.random()
+            if r < 0.35:
+                mates = [x for x, g in fields if g == fields[0][1] and x != f]
+                ops.append({"op": "collection", "name": f"c{len(ops)}", "fields": [f] + (mates[:1] if mates and rng.random() < 0.5 else []), "copy": rng.random() < 0.2})
+            elif r < 0.6:
+                ops.append({"op": "write", "field": f, "seed": seed()})
+            elif r < 0.75:
+                ops.append({"op": "assign_full", "field": f, "seed": seed()})
+            else:
+                ops.append(filler())
+        ops.append({"op": "interpolate", "field": f, "seed": seed(), "fill": fb, "outside": True,
+                    "bc": gen_bc(rng, grids[fields[0][1]], 0) if rng.random() < 0.25 else None})
+    elif theme in ("pde", "solve", "pde_const", "diffusion"):
+        f, gi = fields[0]
+        gd = grids[gi]
+        bc = gen_bc(rng, gd, 0)
+        if theme == "diffusion":
+            d1 = rng.choice([-1, -2, 1, 2, 0.5])
+            ops.append({"op": "diffusion", "state": f, "bc": bc, "diffusivity": d1, "backend": rng.choice([None, "numba", "numpy"])})
+            ops += [filler() for _ in range(n_fill)]
+            bc2, v = vary_bc(rng, gd, 0, bc)
+            hist("history-variant", v)
+            ops.append({"op": "diffusion", "state": f, "bc": bc2, "diffusivity": rng.choice([d1, -1, -2, 1]), "backend": rng.choice([None, "numba", "numpy"])})
+        else:
+            rhs = rng.choice(PDE_RHS)
+            uses_k = "k" in "".join(rhs.values())
+            consts = {}
+            if uses_k:
+                if theme == "pde_const" or rng.random() < 0.5:
+                    kname = f"f{len(fields)}"
+                    ops.append({"op": "field", "name": kname, "grid": gi, "rank": 0, "seed": seed()})
+                    fields.append((kname, gi))
+                    consts["k"] = ["field", kname]
+                else:
+                    consts["k"] = rng.choice([["i", -1], ["i", -2], ["f", 0.5], ["f", 2.0]])
+            ops.append({"op": "pde", "name": "p0", "rhs": rhs, "bc": bc, "consts": consts})
+            q1 = rng.choice(["rate", "rate", "rhs"])
+            first = {"op": q1, "pde": "p0", "state": f, "backend": rng.choice(["numpy", "numba"])}
+            ops.append(first)
+            mid = []
+            for _ in range(rng.randint(0, 3)):
+                r = rng.random()
+                if r < 0.3 and consts.get("k", [""])[0] == "field":
+                    mid.append({"op": "collection", "name": f"c{len(ops) + len(mid)}", "fields": [consts["k"][1]], "copy": False})
+                    mid.append({"op": "write", "field": consts["k"][1], "seed": seed()})
+                elif r < 0.5:
+                    mid.append({"op": "write", "field": f, "seed": seed()})
+                else:
+                    mid.append(filler())
+            ops += mid
+            # the last call: same PDE on the same/another state, or a new PDE with related conditions
+            r = rng.random()
+            others = [x for x in fields if x[0] != f and x[0] != consts.get("k", ["", ""])[1]]
+            if r < 0.35 or (not others and r < 0.6):
+                pname, st = "p0", f
+            elif r < 0.6 and others and not consts.get("k", [""])[0] == "field":
+                pname, st = "p0", rng.choice(others)[0]
+            else:
+                bc2, v = vary_bc(rng, gd, 0, bc)
+                hist("history-variant", v)
+                c2 = dict(consts)
+                if c2.get("k", [""])[0] in ("i", "f") and rng.random() < 0.5:
+                    c2["k"] = rng.choice([["i", -1], ["i", -2], ["f", 0.5]])
+                ops.append({"op": "pde", "name": "p1", "rhs": rhs, "bc": bc2, "consts": c2})
+                pname, st = "p1", f
+            if theme == "solve":
+                ops.append({"op": "solve", "pde": pname, "state": st, "t_range": 0.02, "dt": 0.01, "backend": rng.choice(["numpy", "numba"]),
+                            "solver": rng.choice(["euler", "runge-kutta"] if not jit else ["euler"])})
+            else:
+                ops.append({"op": rng.choice(["rate", "rhs"]), "pde": pname, "state": st, "backend": rng.choice(["numpy", "numba"])})
+    elif theme == "field_op":
+        f, gi = fields[0]
+        gd = grids[gi]
+        bc = gen_bc(rng, gd, 0)
+        be = rng.choice(backends)
+        opn = rng.choice(["laplace", "gradient", "gradient_squared"])
+        ops.append({"op": "field_op", "field": f, "operator": opn, "bc": bc, "backend": be})
+        ops += [filler() for _ in range(n_fill)]
+        bc2, v = vary_bc(rng, gd, 0, bc)
+        hist("history-variant", v)
+        ops.append({"op": "field_op", "field": f, "operator": opn, "bc": bc2, "backend": be})
+    return {"grids": grids, "ops": ops}
+
+
+# ==========================================================================================
+# HEAP histories (one field; compared with `hrun` / `href`)
+INTERP_KW = [[], [["fill", ["i", 0]]], [["fill", ["i", -1]]], [["fill", ["i", -2]]], [["fill", ["f", -1.0]]], [["fill", ["none"]]],
+             [["with_ghost_cells", ["b", False]]], [["fill", ["i", 0]], ["with_ghost_cells", ["b", False]]],
+             [["with_ghost_cells", ["b", False]], ["fill", ["i", 0]]]]
+
+
+def gen_heap_case(rng, hist):
+    events = []
+    tok = itertools.count(2)
+    for _ in range(rng.randint(3, 14)):
+        r = rng.random()
+        if r < 0.2:
+            events.append(["write", str(next(tok))])
+        elif r < 0.35:
+            events.append(["relink", rng.choice([1, 1, 2])])
+        elif r < 0.45:
+            events.append(["assign_new", str(next(tok))])
+        elif r < 0.5:
+            events.append(["assign_same"])
+        elif r < 0.85:
+            events.append(["interp", rng.choice(INTERP_KW)])
+        else:
+            events.append(["rate"])
+    for e in events:
+        hist("heap-event", e[0])
+    return {"kind": "heap", "n": rng.choice([2, 3, 5]), "init": "1", "events": events}
+
+
+def real_heap(case):
+    """returns the values read (as text of the integer content) and the serialised kwargs of the interpolations"""
+    import pde
+    from harness.common import pygraph as G
+    quiet()
+    g = pde.UnitGrid([case["n"]])
+    f = pde.ScalarField(g, float(case["init"]))
+    other = pde.ScalarField(g, 7.0)
+    state = pde.ScalarField(g, 1.0)
+    eq = pde.PDE({"c": "k + 0 * c"}, consts={"k": f})
+    read, events = [], []
+    centre = np.array([0.5])
+    keep = []
+    for e in case["events"]:
+        if e[0] == "write":
+            f.data[...] = float(e[1])
+            events.append(e)
+        elif e[0] == "relink":
+            keep.append(pde.FieldCollection([f] if e[1] == 1 else [other, f]))
+            events.append(["relink"])
+        elif e[0] == "assign_new":
+            f._data_full = np.full(g._shape_full, float(e[1]))
+            events.append(e)
+        elif e[0] == "assign_same":
+            f._data_full = f._data_full
+            events.append(e)
+        elif e[0] == "interp":
+            kw = {k: dec(v) for k, v in e[1]}
+            v = f.make_interpolator(**kw)(centre)
+            read.append(str(int(round(float(np.asarray(v).ravel()[0])))))
+            events.append(["interp", [[k, G.ser(x)] for k, x in kw.items()]])
+        elif e[0] == "rate":
+            v = eq.evolution_rate(state).data[0]
+            read.append(str(int(round(float(v)))))
+            events.append(["rate"])
+    return {"read": read, "events": events}
+
+
+def heap_worker(case):
+    return real_heap(case)
+
+
+# ==========================================================================================
+def last_touches_cache(h):
+    """non-triviality of a history: an earlier operation filled a cache the last call consults"""
+    ops = h["ops"]
+    last = ops[-1]
+    fam = {"make_operator": "op", "field_op": "op", "rate": "op", "rhs": "op", "solve": "op", "diffusion": "op", "ghost_setter": "ghost",
+           "interpolate": "interp", "nobc": "nobc"}
+    return any(o["op"] in QUERY_OPS and fam.get(o["op"]) == fam.get(last["op"]) for o in ops[:-1])
+
+
+def history_key(h, res):
+    """which repaired defect a failing history exhibits (for known_findings matching)"""
+    ops = h["ops"]
+    last = ops[-1]
+    kinds = [o["op"] for o in ops]
+    if last["op"] == "interpolate" and any(k in kinds for k in ("collection", "assign_full")) and "write" in kinds:
+        return KEY_F2
+    if last["op"] in ("rate", "rhs", "solve") and "collection" in kinds and any(o["op"] == "pde" and any(v[0] == "field" for v in o.get("consts", {}).values()) for o in ops):
+        return KEY_PDE
+    if last["op"] == "interpolate":
+        fills = [json.dumps(o.get("fill")) for o in ops if o["op"] == "interpolate"]
+        if len(set(fills)) > 1:
+            return KEY_NEG
+    return dict(GENERIC_KEY, call_site="history:" + last["op"])
+
+
+def run_histories(ctx):
+    rng = ctx.rng
+    n_s = ctx.budget(220, 4000)
+    n_j = ctx.budget(12, 160)
+    n_new = ctx.budget(16, 64)
+    hs = [gen_history(rng, ctx.hist) for _ in range(n_s)] + fixed_histories()
+    t0 = time.time()
+    res = run_many("harness.c04", "hist_worker", hs, env={"NUMBA_DISABLE_JIT": "1"}, procs=16)
+    ctx.extra["t_hist_S"] = round(time.time() - t0, 1)
+    t0 = time.time()
+    hj = [gen_history(rng, ctx.hist, jit=True) for _ in range(n_j)] + fixed_histories()[:2]
+    resj = run_many("harness.c04", "hist_worker", hj, env={"NUMBA_DISABLE_JIT": "0"}, procs=16)
+    ctx.extra["t_hist_J"] = round(time.time() - t0, 1)
+    for mode, hl, rl in (("S", hs, res), ("J", hj, resj)):
+        for h, r in zip(hl, rl):
+            if isinstance(r, str):
+                raise RuntimeError(f"history worker failed: {r}")
+            leg = f"histories:{mode}"
+            if "malformed" in r:
+                ctx.hist("malformed", r["malformed"][:50])
+                ctx.count(h, nontrivial=False, leg=leg + ":malformed")
+                continue
+            ctx.count(h, nontrivial=last_touches_cache(h) and not isinstance(r["fresh"], str), leg=leg)
+            ctx.hist("history-last", h["ops"][-1]["op"] + (":" + r["fresh"][:30] if isinstance(r["fresh"], str) else ""))
+            ctx.hist("history-len", len(h["ops"]))
+            ctx.monitor_evals += 1
+            if not r["same"]:
+                hh = r.get("shrunk", h)
+                ctx.monitor_fail(leg, hh, {"last_result_in_history": r["full"]}, {"same_call_in_fresh_interpreter": r["fresh"]},
+                                 "history: " + str(history_key(hh, r).get("symptom")), key=history_key(hh, r))
+    # a subset in really new interpreters (one history per process), validating the fork shortcut
+    sub = [h for h, r in zip(hs, res) if "malformed" not in r][:n_new]
+    for start in range(0, len(sub), 16):
+        chunk = sub[start:start + 16]
+        full = run_many("harness.c04", "hist_exec_full", chunk, env={"NUMBA_DISABLE_JIT": "1"}, procs=16)
+        fresh = run_many("harness.c04", "hist_exec_fresh", chunk, env={"NUMBA_DISABLE_JIT": "1"}, procs=16)
+        for h, a, b in zip(chunk, full, fresh):
+            ctx.count(dict(h, new_interpreter=True), nontrivial=last_touches_cache(h), leg="histories:new-interpreter")
+            ctx.monitor_evals += 1
+            if not same_result(a, b):
+                ctx.monitor_fail("histories:new-interpreter", h, {"last_result_in_history": a}, {"same_call_in_fresh_interpreter": b},
+                                 "history: " + str(history_key(h, None).get("symptom")), key=history_key(h, None))
+
+
+def fixed_histories():
+    """regression histories of the repaired defects (always run)"""
+    g8 = {"cls": "UnitGrid", "shape": [8], "bounds": [[0.0, 8.0]], "periodic": [False]}
+    g4 = {"cls": "UnitGrid", "shape": [4], "bounds": [[0.0, 4.0]], "periodic": [False]}
+    v0 = {"x-": {"type": "value", "value": ["i", 0]}, "x+": {"type": "value", "value": ["i", 0]}}
+    d0 = {"x-": {"type": "derivative", "value": ["i", 0]}, "x+": {"type": "derivative", "value": ["i", 0]}}
+    out = []
+    # F1
+    out.append({"grids": [g8, g8], "ops": [
+        {"op": "make_operator", "grid": 0, "operator": "laplace", "bc": v0, "backend": "numba", "seed": 11},
+        {"op": "make_operator", "grid": 0, "operator": "laplace", "bc": d0, "backend": "numba", "seed": 11}]})
+    # F2
+    out.append({"grids": [g4, g4], "ops": [
+        {"op": "field", "name": "f0", "grid": 0, "rank": 0, "seed": 1},
+        {"op": "interpolate", "field": "f0", "seed": 2, "fill": ["none"], "outside": False},
+        {"op": "collection", "name": "c0", "fields": ["f0"], "copy": False},
+        {"op": "write", "field": "f0", "seed": 3},
+        {"op": "interpolate", "field": "f0", "seed": 2, "fill": ["none"], "outside": False}]})
+    # A
+    out.append({"grids": [g4, g4], "ops": [
+        {"op": "field", "name": "f0", "grid": 0, "rank": 0, "seed": 1},
+        {"op": "interpolate", "field": "f0", "seed": 2, "fill": ["i", -1], "outside": True},
+        {"op": "interpolate", "field": "f0", "seed": 2, "fill": ["i", -2], "outside": True}]})
+    # B
+    out.append({"grids": [g4, g4], "ops": [
+        {"op": "make_operator", "grid": 0, "operator": "laplace", "bc": {"x-": {"type": "value", "value": ["i", 1]}, "x+": {"type": "value", "value": ["i", 1]}}, "backend": "numba", "seed": 5},
+        {"op": "make_operator", "grid": 0, "operator": "laplace", "bc": {"x-": {"type": "value", "value": ["f", 5e-324]}, "x+": {"type": "value", "value": ["f", 5e-324]}}, "backend": "numba", "seed": 5}]})
+    # C
+    out.append({"grids": [g4, g4], "ops": [
+        {"op": "field", "name": "f0", "grid": 0, "rank": 0, "seed": 1},
+        {"op": "field", "name": "f1", "grid": 0, "rank": 0, "seed": 2},
+        {"op": "pde", "name": "p0", "rhs": {"c": "k * c"}, "bc": "auto_periodic_neumann", "consts": {"k": ["field", "f1"]}},
+        {"op": "rate", "pde": "p0", "state": "f0"},
+        {"op": "collection", "name": "c0", "fields": ["f1"], "copy": False},
+        {"op": "write", "field": "f1", "seed": 3},
+        {"op": "rate", "pde": "p0", "state": "f0"}]})
+    # D
+    gm1 = {"cls": "CartesianGrid", "shape": [4], "bounds": [[-1.0, 1.0]], "periodic": [False]}
+    gm2 = {"cls": "CartesianGrid", "shape": [4], "bounds": [[-2.0, 1.0]], "periodic": [False]}
+    out.append({"grids": [gm1, gm2], "ops": [
+        {"op": "field", "name": "f0", "grid": 0, "rank": 0, "seed": 1},
+        {"op": "field", "name": "f1", "grid": 1, "rank": 0, "seed": 1},
+        {"op": "pde", "name": "p0", "rhs": {"c": "laplace(c)"}, "bc": v0, "consts": {}},
+        {"op": "rate", "pde": "p0", "state": "f0"},
+        {"op": "pde", "name": "p1", "rhs": {"c": "laplace(c)"}, "bc": v0, "consts": {}},
+        {"op": "rate", "pde": "p1", "state": "f1"}]})
+    return out
+
+
+def run_heap(ctx, batch):
+    rng = ctx.rng
+    n = ctx.budget(600, 6000)
+    cases = [gen_heap_case(rng, ctx.hist) for _ in range(n)]
+    res = run_many("harness.c04", "heap_worker", cases, env={"NUMBA_DISABLE_JIT": "1"}, procs=16)
+    pend = []
+    for c, r in zip(cases, res):
+        if isinstance(r, str):
+            raise RuntimeError(f"heap worker failed: {r}")
+        i = batch.add("c04.replay_heap", {"inval": True, "check": True, "init": c["init"], "events": r["events"]})
+        pend.append((c, r, i))
+    return pend
+
+
+def judge_heap(ctx, pend, answers):
+    for c, r, i in pend:
+        kinds = [e[0] for e in c["events"]]
+        nontrivial = any(k in kinds for k in ("interp", "rate")) and any(k in kinds for k in ("relink", "assign_new", "write"))
+        ctx.count(c, nontrivial=nontrivial, leg="heap")
+        ctx.impl_traces += 1
+        st, val = answers[i]
+        if st != "ok":
+            ctx.disagree("heap", c, f"model error {val}", r["read"])
+            continue
+        if list(val["read"]) != list(r["read"]):
+            ctx.disagree("heap", c, {"model_reads": val["read"]}, {"real_reads": r["read"]}, "values read by cached helpers")
+        ctx.monitor_evals += 1
+        if list(val["ref"]) != list(r["read"]):
+            key = KEY_PDE if "rate" in kinds and not any(a != b for a, b in zip(val["ref"], r["read"]) if False) and _first_bad_is_rate(c, val["ref"], r["read"]) else KEY_F2
+            ctx.monitor_fail("heap", c, {"values_read": r["read"]}, {"current_content": val["ref"]},
+                             "heap: " + key["symptom"], key=key)
+
+
+def _first_bad_is_rate(c, ref, read):
+    reads = [e[0] for e in c["events"] if e[0] in ("interp", "rate")]
+    for k, a, b in zip(reads, ref, read):
+        if a != b:
+            return k == "rate"
+    return False
+
+
 def run(ctx):
     from harness.common.lean import LeanBatch
     quiet()
@@ -1101,14 +1762,34 @@ def run(ctx):
     pending = run_pairs(ctx, batch)
     ctx.extra["t_pairs_real"] = round(time.time() - t0, 1)
     t0 = time.time()
+    heap = run_heap(ctx, batch)
+    ctx.extra["t_heap_real"] = round(time.time() - t0, 1)
+    t0 = time.time()
     answers = batch.run()
-    ctx.extra["t_pairs_model"] = round(time.time() - t0, 1)
+    ctx.extra["t_model"] = round(time.time() - t0, 1)
     judge_pairs(ctx, pending, answers)
+    judge_heap(ctx, heap, answers)
+    t0 = time.time()
+    run_histories(ctx)
+    ctx.extra["t_histories"] = round(time.time() - t0, 1)
+    ctx.monitor_failures.sort(key=lambda m: len(json.dumps(m["case"], default=str)))
 
 
 def replay(ctx, rep):
     quiet()
     case = rep["case"]
+    if "ops" in case:
+        r = hist_worker(case)
+        print(json.dumps({"in_history": r["full"], "fresh": r["fresh"]}, default=str)[:3000])
+        return bool(r["same"])
+    if case.get("kind") == "heap":
+        from harness.common.lean import LeanBatch
+        r = real_heap(case)
+        b = LeanBatch(ctx.workdir)
+        b.add("c04.replay_heap", {"inval": True, "check": True, "init": case["init"], "events": r["events"]})
+        st, val = b.run()[0]
+        print("read:", r["read"], "current content:", val.get("ref") if st == "ok" else val)
+        return st == "ok" and list(val["ref"]) == list(r["read"])
     res = pair_worker(case)
     print(json.dumps({k: v for k, v in res.items() if k not in ("ga", "gb", "sa", "sb")}, default=str)[:2000])
     return bool(res.get("cached_ok", True)) and not (res.get("shared") and res.get("sem_eq") is False)
